@@ -84,6 +84,7 @@ OWN = [
     ("strict-many-missing-in-def", {"m": "<%def name='q()'>${india}${juliet}${kilo}${lima}${mike}${november}</%def>${q()}"}, {}, None, {"strict_undefined": True}),
     ("strict-many-missing", {"m": "${alpha}${bravo}${charlie}${delta}${echo}${foxtrot}${golf}${hotel}<%def name='q()'>${india}${juliet}${kilo}${lima}</%def>${q()}"}, {}, None, {"strict_undefined": True}),
     ("many-names-no-def", {"m": "${alpha}${bravo}${charlie}${delta}${echo}${foxtrot}${golf}${hotel}\n% if india:\n${juliet}${kilo}\n% endif\n<%block name='b'>${lima}${mike}${november}${oscar}</%block>"}, dict(alpha="a", bravo="b", charlie="c", delta="d", echo="e", foxtrot="f", golf="g", hotel="h", india="i", juliet="j", kilo="k", lima="l", mike="m", november="n", oscar="o"), None),
+    ("loop-as-variable", {"m": "body ${x} ${loop}<%def name='d()'>[d ${x} ${loop}]</%def>${d()}\n% for i in x:\n${i}\n% endfor\n"}, {"x": "X", "loop": "L"}, None, {"enable_loop": False}),
     ("cached", {"m": "<%def name='f()' cached='True' cache_impl='c17rec'>c${x}</%def>${f()}${f()}"}, {"x": "1"}, None),
 ]
 
@@ -99,6 +100,8 @@ def own_corpus():
     out = []
     for name, enc, text, ctx, exp in NON_UTF8:
         out.append({"id": "OWN:enc-" + name, "files": {"m.html": text}, "main": "m.html", "ctx": ctx, "expected": exp, "template_kwargs": {}, "env": None, "encoding": enc})
+        # the same with options that add lines to the head of the generated module
+        out.append({"id": "OWN:enc-future-" + name, "files": {"m.html": text}, "main": "m.html", "ctx": ctx, "expected": exp, "template_kwargs": {"future_imports": ["annotations"], "imports": ["import os"]}, "env": None, "encoding": enc})
     for entry in OWN:
         name, files, ctx, exp = entry[:4]
         f = {("m.html" if k == "m" else k): v for k, v in files.items()}
